@@ -588,6 +588,9 @@ def child_family(tier="quick"):
         add("child-%s-child-times-out-in-task" % form, chain(("L", launch(form)), Z), cs, workers={"fslow": {"*": [["delay", ["ok", 1]]]}}, form="sync-child-timeout")
     add("child-sync-child-times-out-caught", chain(("L", launch("sync", Catch=[{"ErrorEquals": ["States.ALL"], "Next": "Z", "ResultPath": "$.err"}])), Z), cw, form="sync-child-timeout")
     add("child-sdk-express-child-times-out", chain(("L", launch("sdk")), Z), cw, ctype="EXPRESS", form="sync-child-timeout")
+    # the child is cancelled (its parent timed out) while it is itself inside a fan-out
+    child_par = chain(("CP", Parallel([chain(("CW1", Wait(10))), chain(("CT1", Task("fslow")))])), ("CZ", Pass()))
+    add("child-sync-parent-timeout-child-in-parallel", chain(("L", launch("sync", TimeoutSeconds=2)), Z), child_par, workers={"fslow": {"*": [["delay", ["ok", 1]]]}}, form="sync-timeout")
     # parent inside Parallel / Map
     add("child-sync-in-parallel", chain(("P", Parallel([chain(("L", launch("sync"))), chain(("B1", Task("fb")))])), Z), child_ok, workers={"fb": {"*": OK("b")}}, form="sync-nested")
     add("child-sync-in-parallel-sibling-fails", chain(("P", Parallel([chain(("L", launch("sync"))), chain(("B1", Task("fb")))])), Z), child_wait, workers={"fb": {"*": ERR()}}, form="sync-terminated")
